@@ -197,6 +197,27 @@ func runC37(rc *RC) {
 func invalidSource(rc *RC, g *cityGen, forCompact bool) ([]*fspec, int) {
 	g.noBaseCollections = forCompact
 	specs := g.baseCity(!forCompact)
+	if !forCompact && rc.Pct(50) {
+		// the in-memory builder takes areas that mix representations; one
+		// valid, and one whose path-based polygon stands on a missing path
+		g.mixedAreas = true
+		for k := 0; k < 2; k++ {
+			if aid, ok := g.freeID(b6.FeatureTypeArea); ok {
+				a := g.areaSpec(aid)
+				if k == 1 && len(a.AreaPaths) > 1 {
+					for i := range a.AreaPaths {
+						if a.AreaPaths[i] != nil {
+							a.AreaPaths[i] = []b6.FeatureID{{Type: b6.FeatureTypePath, Namespace: nsB, Value: 998}}
+							rc.Notef("invalid input: %s (mixed area, path polygon over a missing path)", a)
+						}
+					}
+				}
+				g.specs[aid] = a
+				specs = append(specs, a)
+			}
+		}
+		g.mixedAreas = false
+	}
 	nBad := rc.Range(1, 5)
 	bad := 0
 	for k := 0; k < nBad; k++ {
@@ -331,6 +352,7 @@ func c37History(rc *RC) {
 	rc.Knob("world-kind", kind)
 	base := g.baseCity(true)
 	w, err := makeMutableWorld(rc, g, kind, base)
+	g.mixedAreas = true // only for features added from here on
 	if err != nil {
 		rc.Fail("HARNESS/fixture", "%v", err)
 		return
